@@ -26,13 +26,19 @@ not look at the position), `is_lfe_channel`, the polar `channels_within_bounds` 
 exactly), the LFE-class mask `candidates`.
 
 Which panner with which position (as `_handle_without_gain` does):
-  polar block      →  `self.psp.handle(cart(az', el', distance))`   with (az', el') after the POLAR screen edge lock
+  polar block      →  `self.psp.handle(cart(az', el', 1.0))`        with (az', el') after the POLAR screen edge lock
   Cartesian block  →  `self.allo_psp.handle([X', Y', Z'])`          with (X', Y', Z') after the CARTESIAN screen edge lock
 the lock is applied BEFORE `channels_within_bounds`, `closest_channel_index` and the panner; the panner result goes to
 the non-LFE slots only.
 
 Not a literal copy: `psp.handle` returning `None` makes numpy write NaN into the non-LFE slots (`pv[mask] = None`), and
 makes `StereoPanDownmix.handle` (0+2+0) raise TypeError: both are the error `pspNone` here (the harness maps it).
+
+Distance 0 (no validator forbids it: `BoundCoordinate.value` is only `finite_float`): `cart(az, el, 0)` is the zero
+vector, for which `configure(layout).handle` computes `0 / 0` (NaN gains).  Since /repo 1404dee the polar branch of
+`_handle_without_gain` therefore hands the panner `cart(az', el', 1.0)` — the direction at unit distance — and keeps
+`shifted_position.as_cartesian_array()` (with the block's distance) for `closest_channel_index` only: `Shifted.pan` versus
+`Shifted.cart` below.  The distance is also used, legitimately, by the polar `channels_within_bounds`.
 -/
 import Earverif.Model.DirectSpeakersGeom
 import Earverif.Model.GainCalcConcrete
@@ -193,8 +199,11 @@ def handleVectorCart (E : CEnv) (P : Conv.Params α) (p : V3 α) (sel : ScreenEd
 structure Shifted (α : Type) where
   /-- `channels_within_bounds(shifted_position, tol)` before the LFE-class mask -/
   wb : List Bool
-  /-- `shifted_position.as_cartesian_array()` -/
+  /-- `shifted_position.as_cartesian_array()` (what `closest_channel_index` measures distances from) -/
   cart : V3 α
+  /-- the position handed to the fallback panner: polar `cart(shifted.azimuth, shifted.elevation, 1.0)`, Cartesian
+      `shifted_position.as_cartesian_array()` -/
+  pan : V3 α
   /-- `self.positions` (polar) / `self.allo_positions` (Cartesian) -/
   positions : List (V3 α)
   /-- polar block: `psp = self.psp`; Cartesian block: `psp = self.allo_psp` -/
@@ -207,18 +216,19 @@ def shift (E : CEnv) (P : Conv.Params α) (pos : PositionC) (tol : Rat) : Except
     let s := applySelPolar E.G az el sel
     .ok { wb := polarWithin E.G s.1 s.2 dist tol,
           cart := GainCalc.cart (k s.1.value) (k s.2.value) (k dist.value),
+          pan := GainCalc.cart (k s.1.value) (k s.2.value) (k 1),
           positions := E.G.pos.map cast3, polar := true }
   | .cart x y z sel =>
     match handleVectorCart E P (k x.value, k y.value, k z.value) sel with
     | none => .error .edgeLock
     | some q =>
       .ok { wb := cartWithinC (E.G.allo.map cast3) ⟨q.1, x.min, x.max⟩ ⟨q.2.1, y.min, y.max⟩ ⟨q.2.2, z.min, z.max⟩ (k tol),
-            cart := q, positions := E.G.allo.map cast3, polar := false }
+            cart := q, pan := q, positions := E.G.allo.map cast3, polar := false }
 
-/-- `psp.handle(shifted_position.as_cartesian_array())` with `psp = self.psp` / `self.allo_psp`. -/
+/-- `psp.handle(position)` with `psp = self.psp` / `self.allo_psp` and `position = Shifted.pan`. -/
 def fallbackC (E : CEnv) (s : Shifted α) : Except CError (List α) :=
   if s.polar then
-    match GainCalc.pspHandle E.psp s.cart with
+    match GainCalc.pspHandle E.psp s.pan with
     | none => .error .pspNone
     | some g => .ok g
   else
@@ -226,7 +236,7 @@ def fallbackC (E : CEnv) (s : Shifted α) : Except CError (List α) :=
     match CartLock.speakerTree sub with
     | none => .error .speakerTree
     | some st =>
-      match GainCalc.alloHandle sub.length st s.cart.1 s.cart.2.1 s.cart.2.2 with
+      match GainCalc.alloHandle sub.length st s.pan.1 s.pan.2.1 s.pan.2.2 with
       | none => .error .pspNone
       | some g => .ok g
 
